@@ -211,8 +211,10 @@ def sample_state_vector(
     num_qubits = len(shape)
     qis.validate_indices(num_qubits, indices)
 
+    meas_shape = tuple(shape[i] for i in indices)
+    dtype = simulation_utils.digits_dtype(meas_shape, np.uint8)
     if repetitions == 0 or len(indices) == 0:
-        return np.zeros(shape=(repetitions, len(indices)), dtype=np.uint8)
+        return np.zeros(shape=(repetitions, len(indices)), dtype=dtype)
 
     prng = value.parse_random_state(seed)
 
@@ -225,10 +227,9 @@ def sample_state_vector(
     # choosing from a list of tuples or list of lists.
     result = prng.choice(len(probs), size=repetitions, p=probs)
     # Convert to individual qudit measurements.
-    meas_shape = tuple(shape[i] for i in indices)
     return np.array(
         [value.big_endian_int_to_digits(result[i], base=meas_shape) for i in range(len(result))],
-        dtype=np.uint8,
+        dtype=dtype,
     )
 
 
